@@ -77,9 +77,10 @@ Proof. eexists. split; [vm_compute; reflexivity|]. split; [reflexivity|]. eexist
 
     A whole statement (C02_simple_select_partial): SELECT <stars and column
     references> FROM <base tables, with or without aliases> - no WITH, no
-    joins, no other clause mentioning columns - sqlc's outputColumns and
-    PostgreSQL's row description (Spec/PgScope.describe, strict and deep) agree
-    on acceptance and on the row.  The derived-table / CTE / UPDATE..FROM
+    joins, no sub-selects; in strict mode no other clause mentioning columns,
+    otherwise any WHERE / GROUP BY / HAVING / ORDER BY that pairs no column with
+    a parameter - sqlc's outputColumns and the row description of
+    Spec/PgScope.describe agree on acceptance and on the row.  The derived-table / CTE / UPDATE..FROM
     statements of the known findings are outside these hypotheses; that they
     FAIL is C02_refuted_derived_table. *)
 Theorem C02_level_refines_partial : forall e sc tables targets,
@@ -94,13 +95,15 @@ Theorem C02_level_refines_partial : forall e sc tables targets,
 Proof. exact level_refines. Qed.
 Print Assumptions C02_level_refines_partial.
 
-Theorem C02_simple_select_partial : forall (e : env) (stmt : node) (targets rvs : list node),
+Theorem C02_simple_select_partial : forall (e : env) (strict : bool) (stmt : node) (targets rvs : list node),
   kind_of stmt = "SelectStmt" -> kid "WithClause" stmt = Nil ->
   kid "TargetList" stmt = NList targets -> targets <> [] ->
   kid "FromClause" stmt = NList rvs -> from_items (kid "FromClause" stmt) = rvs ->
   Forall (fun rv => kind_of rv = "RangeVar") rvs ->
-  level_refs (NList [kid "FromClause" stmt; kid "WhereClause" stmt; kid "GroupClause" stmt;
-                     kid "HavingClause" stmt; kid "SortClause" stmt]) = [] ->
+  (if strict then level_refs (NList [kid "FromClause" stmt; kid "WhereClause" stmt; kid "GroupClause" stmt;
+                                     kid "HavingClause" stmt; kid "SortClause" stmt])
+   else paired_refs (NList [kid "FromClause" stmt; kid "WhereClause" stmt; kid "GroupClause" stmt;
+                            kid "HavingClause" stmt; kid "SortClause" stmt])) = [] ->
   level_subselects (NList ([kid "FromClause" stmt; kid "WhereClause" stmt; kid "GroupClause" stmt;
                             kid "HavingClause" stmt; kid "SortClause" stmt] ++ map (kid "Val") targets ++ [])) = [] ->
   level_refs (NList (map (kid "Val") targets)) = map (kid "Val") targets ->
@@ -108,7 +111,7 @@ Theorem C02_simple_select_partial : forall (e : env) (stmt : node) (targets rvs 
   (forall sc, spec_scope (env_cat e) rvs = POk sc ->
      Forall (fun it => NoDup (map sc_name (si_cols it))) sc /\ Forall (simple_target sc) targets) ->
   forall f g,
-  match describe (env_cat e) true true (S (S f)) [] [] stmt, output_columns (S g) e [] stmt with
+  match describe (env_cat e) strict true (S (S f)) [] [] stmt, output_columns (S g) e [] stmt with
   | POk row, Ok cols => map sc_name row = map qc_name cols
   | PErr _, Err _ => True
   | _, _ => False
